@@ -1292,6 +1292,7 @@ return 1;""",
                 struct_fmt = struct_member.fmtdict
                 fmt_arg.field_name = struct_fmt.field_name
                 fmt_arg.PY_member_object = struct_fmt.PY_member_object
+                fmt_arg.PY_member_data = struct_fmt.PY_member_data
                 field_size = struct_member.ast.get_array_size()
                 if field_size is not None:
                     fmt_arg.field_size = field_size
@@ -4780,6 +4781,8 @@ py_statements = [
             "{cast_static}{c_type} *{cast1}{value_var}.data{cast2};",
             "self->{PY_member_object} = {value_var}.obj;"
             "  // steal reference",
+            "self->{PY_member_data} = {value_var}.dataobj;"
+            "  // steal reference",
         ],
     ),
     dict(
@@ -4845,6 +4848,8 @@ py_statements = [
             "{cast_static}char **{cast1}{value_var}.data{cast2};",
             "self->{PY_member_object} = {value_var}.obj;"
             "  // steal reference",
+            "self->{PY_member_data} = {value_var}.dataobj;"
+            "  // steal reference",
         ],
     ),
     
@@ -4871,14 +4876,18 @@ py_statements = [
         setter=[
             "{PY_typedef_converter} cvalue;",
             "Py_XDECREF({c_var_obj});",
+            "Py_XDECREF({c_var_data});",
             "if ({hnamefunc0}({py_var}, &cvalue) == 0) {{+",
             "{c_var} = {nullptr};",
             "{c_var_obj} = {nullptr};",
+            "{c_var_data} = {nullptr};",
             # Exception is set by hnamefunc0
             "return -1;",
             "-}}",
             "{c_var} = {cast_static}{cast_type}{cast1}cvalue.data{cast2};",
             "{c_var_obj} = cvalue.obj;  // steal reference",
+            # The capsule which owns the converted C array.
+            "{c_var_data} = cvalue.dataobj;  // steal reference",
         ],
         getter_helper="to_PyList_{c_type}",
         getter=[
